@@ -6,6 +6,7 @@ if [ -n "$VP_RUN_REPO" ]; then
   export VERIF_REPO="$VP_RUN_REPO"
   sed -i "s#path = \"/repo\"#path = \"$VP_RUN_REPO\"#" harness/Cargo.toml
 fi
+export MATRIX_JOBS=${MATRIX_JOBS:-3}
 python3 tools/check.py --setup
 python3 tools/matrix.py "$@"
 cat matrix_out.json
